@@ -549,6 +549,12 @@ func NewKeyFromString(key string) (*ExtendedKey, error) {
 		if err != nil {
 			return nil, err
 		}
+		// btcec range-checks the coordinates of uncompressed keys only; a
+		// compressed key whose X is not below the field prime would be
+		// silently reduced modulo P.
+		if new(big.Int).SetBytes(keyData[1:]).Cmp(btcec.S256().P) >= 0 {
+			return nil, fmt.Errorf("pubkey X parameter is >= to P")
+		}
 	}
 
 	return NewExtendedKey(version, keyData, chainCode, parentFP, depth,
